@@ -46,11 +46,16 @@ pub fn gen_case(r: &mut Prng, tag: &str, allow_panicky_bare: bool) -> Case {
     };
     case.pre = regs;
     let prog = Prog::Stmts(stmts);
-    case.pre.push(if r.chance(1, 3) {
+    let eval = if r.chance(1, 3) {
         Op::ParseExec { prog, ctx: CtxRef::Slot(0), times: 1 }
     } else {
         Op::Exec { prog, ctx: CtxRef::Slot(0) }
-    });
+    };
+    if r.chance(1, 4) {
+        // the same program evaluated twice in one process lifetime: every visit runs every handler again
+        case.pre.push(eval.clone());
+    }
+    case.pre.push(eval);
     case.post.push(Op::CtxDump { slot: 0 });
     case
 }
@@ -73,7 +78,7 @@ impl Prop for C07 {
             assumptions: &[
                 "value-level results of built-in operators are taken from the engine itself (used as a calculator on scratch contexts); the model owns order, once-ness, laziness and cut-off",
                 "programs are fully parenthesised and pre-flighted: a program whose parse differs from the intended tree is skipped and counted, not blamed on this property",
-                "assignment targets are plain variable names (never names bound to context functions), && and || are strict as the statement says",
+                "targets of plain assignments are variable names (never names bound to context functions), && and || are strict as the statement says",
             ],
             fault_kinds: &["handler_err", "fresh_process"],
             probes: &["fault_at_last_invocation", "fault_at_first_invocation", "lazy_branch_skipped_observable", "bare_name_ctx_function", "assignment_before_fault"],
